@@ -103,6 +103,10 @@ impl BBSplusPoKSignature {
     ///
     /// * `Result<Self, Error>` - A result containing the deserialized `BBSplusPoKSignature` or an error.
     pub fn from_bytes(bytes: &[u8]) -> Result<Self, Error> {
+        // 3 points and 3 scalars precede the variable part
+        if bytes.len() < 240 {
+            return Err(Error::InvalidProofOfKnowledgeSignature);
+        }
         let Abar = parse_g1_projective(&bytes[0..48])
             .map_err(|_| Error::InvalidProofOfKnowledgeSignature)?;
         let Bbar = parse_g1_projective(&bytes[48..96])
@@ -999,6 +1003,9 @@ impl BBSplusZKPoK {
     /// # Output
     /// * A Result containing the `BBSplusZKPoK` or an Error.
     pub fn from_bytes(bytes: &[u8]) -> Result<Self, Error> {
+        if bytes.len() < 32 {
+            return Err(Error::InvalidProofOfKnowledgeSignature);
+        }
         let s_cap = Scalar::from_bytes_be(
             &<[u8; 32]>::try_from(&bytes[0..32])
                 .map_err(|_| Error::InvalidProofOfKnowledgeSignature)?,
